@@ -8,6 +8,18 @@ TRUST = ("Trusted base: Go 1.26.8 testing/synctest (fake clock, quiescence), the
          "in sim/driver, and third-party modules which run unmodified. A clean batch is evidence over the seeds explored, not proof.")
 
 checks = {
+ "C07": dict(level="fault_enumeration", ref="DESIGN.md §4 C07",
+   technique="deterministic simulation with crash-point enumeration: the process _exits after the k-th mutating file-system call of a seeded ingest history, the shipped start-up runs on the same directory, queries are checked against the event model",
+   text="Every mutating file-system call of the flush/rotate/metadata code is a numbered crash point of the simulated disk; the thorough tier takes every k of every explored history (exhaustive per history and schedule), the quick tier a stratified sample. After the crash a fresh process runs the real StartSiglensServer and the oracle checks: start-up succeeds, completed flushes are fully searchable with exact content, the flush in progress is all-or-nothing per query form, no garbage, later ingestion does not overwrite recovered data, no hang.",
+   note=TRUST + " Crash model: completed system calls persist (process crash, OS survives). Flush completion is attributed to explicit flush/rotate operations."),
+ "C10": dict(level="fault_enumeration", ref="DESIGN.md §4 C10",
+   technique="deterministic simulation with fault enumeration: crash after every fs call of seeded metrics WAL histories followed by real recovery and queries; every truncation length and every byte x {flip,0x00,0xFF} of every WAL file read back through the real WAL iterators",
+   text="Three enumerations per seeded history: crash points (end-to-end: recovered datapoints/metric names/segment metadata must include everything whose append completed, be per-series prefixes, contain nothing unwritten, bit-exact), truncations and single-byte corruptions of the WAL files (the real iterators must yield a prefix of the intact sequence). Thorough covers the spaces completely for the explored histories.",
+   note=TRUST + " Datapoints are required to be reachable only for series whose tags tree had been flushed (the tags tree has no WAL of its own; that gap is reported in DESIGN, not counted against C10)."),
+ "C11": dict(level="exploration", ref="DESIGN.md §4 C11",
+   technique="deterministic simulation: seeded schedule search (baton scheduler, PRNG-driven pre-emption at every lock/channel/fs yield point) over concurrent ingest, timer flushes, rotation and searches, with an interval oracle over invoke/return sequence numbers, wait-for-graph deadlock detection, spin/hang watchdogs",
+   text="The interleaving of ingesters, the real idle/max-wait flush loops, a rotator and searchers is the choice sequence of a seeded scheduler that owns which goroutine runs; each search is judged by interval rules (no event twice, nothing from the future, everything whose flush completed before the search began, exact contents after quiescence); deadlocks, hangs and panics of the node are violations. Exploration is the right level for an unbounded schedule space.",
+   note=TRUST + " Because tasks are serialised by the baton, raw unsynchronised memory accesses are not observed: the 'no data races' clause is decided only through its visible effects, lock-order deadlocks and crashes."),
  "C01": dict(level="exploration", ref="DESIGN.md §4 C01",
    technique="deterministic simulation: seeded ingest/flush/rotate/restart histories on the real node under the seeded scheduler, checked against an event-set reference model",
    text="Seeded search over ingest histories (batching, flush, forced rotation, idle-timer flush, graceful restart, swarm knobs) executed by the real writer/reader/query code inside a deterministic simulator; after every flush-completing step the match-all result must equal the model's event multiset field by field. Exploration is the right level: the space of histories x JSON shapes is unbounded.",
